@@ -208,6 +208,16 @@ class HTMLTranslator(html4css1.HTMLTranslator):
 
         return super().starttag(node, tagname, suffix, **attributes)  # type: ignore[no-any-return]
 
+    def footnote_backrefs(self, node: nodes.Node) -> None:
+        # The links from a footnote back to its references are not written with starttag():
+        # give them the prefix that the ids of the references get there.
+        backrefs = node['backrefs']
+        node['backrefs'] = [ref if ref.startswith('rst-') else f'rst-{ref}' for ref in backrefs]
+        try:
+            super().footnote_backrefs(node)
+        finally:
+            node['backrefs'] = backrefs
+
     def visit_image(self, node: nodes.Node) -> None:
         # For the images it presents with an <object> tag (svg, videos) the html4css1 writer 
         # copies the alternative text - or the uri when there is none - as is in between 
